@@ -20,7 +20,10 @@ RULE = ('8 helpers (route/resource/static/current_route x url/path) on generated
         'elements, query (str / pair list / mapping; None, sequences, bytes, ints), anchor, scheme/host/port/app_url '
         'overrides, SCRIPT_NAME / Host / port variants, histories on ONE request object whose environment changes between calls '
         '(path_info_pop, script_name assignment, rewritten Host/scheme/port) or that served earlier calls with other arguments, '
-        'routes whose pattern is a full URL (scheme / userinfo / port in the pattern), the function forms of pyramid.url; '
+        'routes whose pattern is a full URL (scheme / userinfo / port in the pattern), the function forms of pyramid.url, '
+        'values that are neither str, bytes nor int (None, non-integral floats, str-subclass instances, objects with __str__), '
+        'one-shot iterators as query / sequence value / star value, empty _host; current_route_url is also compared with '
+        'route_url(<current route>, **{**matchdict, **keywords}) on the implementation; '
         'plus urllib.parse decoder, urljoin and quote streams. non-trivial = a URL was '
         'produced AND (some supplied element/query/anchor/script character needs quoting OR an override is present OR the '
         'route has a placeholder); distinct by full case')
@@ -31,36 +34,40 @@ ASSUMPTIONS = [
     'SCRIPT_NAME is valid UTF-8 (webob decodes it before pyramid sees it); query pairs are well-formed 2-tuples',
     'urllib.parse.quote/unquote/urlsplit/parse_qsl and webob host_url are modelled and validated by the run, not verified',
 ]
-TRUSTED = ['translator harness/c17/translate.py: its PRIMITIVE TABLE (which Python leaf means which primitive of coq/Model/C17.v) and '
-           'its mechanical statement-to-term rules',
-           'hand-written model coq/Model/C17.v of the functions that are not translated (shape-pinned functions of url.py, traversal.py, '
-           'urldispatch.py, config/views.py)', 'webob 1.8 Request.host_url/application_url/script_name (modelled)',
+TRUSTED = ['translator harness/c17/translate.py: its PRIMITIVE TABLE (which Python leaf means which primitive of coq/Model/C17.v / '
+           'C17_glue.v: registry and mapper lookups, route.generate, _join_elements, parse_url_overrides, keyword-dictionary '
+           'operations, the closure variables of the external-route pregenerator) and its mechanical statement-to-term rules',
+           'hand-written model coq/Model/C17.v of the functions that are not translated (shape-pinned: resource_url, '
+           '_quoted_script_name, _join_elements, traversal.py, urldispatch._compile_route, StaticURLInfo.generate / add, add_route '
+           'outside its pregenerator closure)', 'webob 1.8 Request.host_url/application_url/script_name (modelled)',
            'CPython urllib.parse + UTF-8 codec (modelled in Lib/Percent.v, Lib/Utf8.v, Model/C17.v; validated by the decoder/quote streams)']
 TECHNIQUE = ('Coq proofs about a Gallina program whose control flow is translated from the Python source on every run '
              '(harness/c17/translate.py -> Gen/Code_C17.v: _partial_application_url, parse_url_overrides, urlencode, url_quote, '
-             'quote_plus, the four *_path helpers), proved equal to the hand-written reference model, + regenerated safe sets/tables '
+             'quote_plus, route_url, current_route_url, static_url, the four *_path helpers, the seven function forms of pyramid.url, '
+             'the pregenerator closure of add_route for full-URL patterns: 20 functions), proved equal to the hand-written reference '
+             'model, + totality (a URL is produced whenever the spec says one is due) + regenerated safe sets/tables '
              'for the rest + extracted-model differential correspondence + judging the real output with urllib.parse against the Coq spec')
 LEVEL_TEXT = ('Machine-checked, for inputs of any size (the core functions as REGENERATED from the source on this run, proved equal to the reference model): elements, query pairs and anchor round-trip through the reference decoder; '
               'every produced character after the application URL is allowed by RFC 3986 in its component; overrides are honoured '
-              'with default ports elided and _app_url first; the *_path forms equal the *_url forms minus scheme://authority.')
+              'with default ports elided and _app_url first; the *_path forms equal the *_url forms minus scheme://authority; '
+              'a URL is produced whenever route, placeholders and encodability allow (totality); an external route takes its scheme '
+              'from _scheme, else the pattern, else the request.')
 LEVEL_NOTE = ('Trusted: Coq kernel; the translator\'s PRIMITIVE TABLE and mechanical statement rules (fail-closed: anything outside '
-              'subset/table is a broken tie, never a guess); the hand-written model of the functions that are not translated '
-              '(route_url, resource_url, static_url, current_route_url, _join_elements, quote_path_segment, _compile_route, '
-              'StaticURLInfo.generate: shape-pinned, validated by correspondence); urllib.parse/webob modelled; pattern parsing '
+              'subset/table is a broken tie, never a guess; with **keywords the parameter names are part of the interface and are '
+              'checked); the hand-written model of the functions that are not translated '
+              '(resource_url, _join_elements, quote_path_segment, _compile_route, StaticURLInfo.generate: shape-pinned, validated by '
+              'correspondence; add_route: pinned with its pregenerator closure blanked); urllib.parse/webob modelled; pattern parsing '
               'taken from the implementation\'s regexes; Python judge.')
 
 PIN_SPEC = {   # computed from /repo/src
 
-    # translated functions (harness/c17/translate.py) carry no pin: parse_url_overrides, _partial_application_url,
-    # route_path, resource_path, static_path, current_route_path, encode.url_quote / quote_plus / urlencode
-    'pyramid/url.py': ['URLMethodsMixin._quoted_script_name', 'URLMethodsMixin.route_url',
-                       'URLMethodsMixin.resource_url', 'URLMethodsMixin.static_url',
-                       'URLMethodsMixin.current_route_url', '_join_elements', '_join_quoted_elements',
-                       # the function forms pyramid.url.route_url(route_name, request, ..) etc. (exercised: case['via'])
-                       'route_url', 'route_path', 'resource_url', 'static_url', 'static_path', 'current_route_url',
-                       'current_route_path'],
+    # translated functions (harness/c17/translate.py, TRANSLATED) carry no pin: parse_url_overrides, _partial_application_url,
+    # route_url, current_route_url, static_url, route_path, resource_path, static_path, current_route_path, the seven function
+    # forms pyramid.url.route_url(route_name, request, ..) etc., encode.url_quote / quote_plus / urlencode, and the
+    # pregenerator closure inside add_route (add_route itself: masked pin, pins_masked.json)
+    'pyramid/url.py': ['URLMethodsMixin._quoted_script_name', 'URLMethodsMixin.resource_url',
+                       '_join_elements', '_join_quoted_elements'],
     'pyramid/location.py': ['lineage'],
-    'pyramid/config/routes.py': ['RoutesConfiguratorMixin.add_route'],
     'pyramid/traversal.py': ['quote_path_segment', '_join_path_tuple', 'ResourceURL', 'resource_path_tuple',
                              'split_path_info', 'decode_path_info',
                              '_resource_path_list'],
@@ -71,12 +78,61 @@ PIN_SPEC = {   # computed from /repo/src
     'pyramid/util.py': ['is_nonstr_iter', 'bytes_', 'text_'],
 }
 
+# pins computed with the body of a nested function blanked (that function is translated instead)
+MASKED_PINS = {'pyramid/config/routes.py': {'RoutesConfiguratorMixin.add_route': ['external_url_pregenerator']}}
+
+
+def masked_shape(node, masked):
+    import ast
+    import hashlib
+    node = F.strip_doc(node)
+    hit = 0
+    for n in ast.walk(node):
+        if isinstance(n, ast.FunctionDef) and n.name in masked:
+            n.body = [ast.Pass()]
+            hit += 1
+    return hashlib.sha1(ast.dump(node).encode()).hexdigest()[:16], hit
+
+
+def check_masked(src, problems, compute=False):
+    out = {}
+    try:
+        with open(os.path.join(HERE, 'pins_masked.json')) as f:
+            pins = json.load(f)
+    except (OSError, ValueError):
+        pins = {}
+    for rel, quals in MASKED_PINS.items():
+        try:
+            m = F.Module(src, rel)
+        except (OSError, SyntaxError) as e:
+            problems.append('cannot parse %s: %s' % (rel, e))
+            continue
+        for q, masked in quals.items():
+            node = m.find(q)
+            if node is None:
+                problems.append('shape pin %s:%s -- function no longer exists' % (rel, q))
+                continue
+            got, hit = masked_shape(node, masked)
+            out.setdefault(rel, {})[q] = got
+            if compute:
+                continue
+            if hit != len(masked):
+                problems.append('masked pin %s:%s: expected exactly the nested function(s) %s' % (rel, q, masked))
+            want = pins.get(rel, {}).get(q)
+            if got != want:
+                problems.append('shape pin %s:%s (with %s blanked) changed (%s -> %s): the hand-written model follows '
+                                'the previous text of this function' % (rel, q, masked, want, got))
+    return out
+
+
 _FACTS = {}
 
 
 def facts(src):
     problems = []
     summary = F.check_shapes(src, os.path.join(HERE, 'pins.json'), problems)
+    for rel, d in check_masked(src, problems).items():
+        summary.update({'%s:%s (masked)' % (rel, q): h for q, h in d.items()})
     # the control flow of the core functions, regenerated from the source (harness/c17/translate.py) into a second
     # generated file: it imports Model/C17.v, which imports Gen/Facts_C17.v
     try:
@@ -125,7 +181,30 @@ def gen_word(rng):
     return ''.join(rng.choice(PLAIN) for _ in range(rng.choice([1, 2, 3])))
 
 
+X_FLOATS = ['1.5', '-0.0', '0.25', '1e+30', '-2.5', 'inf']
+
+
+def gen_xval(rng, allow_none=True):
+    """a value that is neither str, bytes nor int: None, a non-integral float, an instance of a str subclass, an object
+    with its own __str__ -- str(v) is what the helpers have to encode"""
+    k = rng.choice(['none', 'float', 'ssub', 'ssub', 'obj'] if allow_none else ['float', 'ssub', 'ssub', 'obj'])
+    if k == 'none':
+        return ['x', 'none', '']
+    if k == 'float':
+        return ['x', 'float', rng.choice(X_FLOATS)]
+    return ['x', k, gen_text(rng, 4, 0.5) if rng.random() < 0.85 else '']
+
+
+OTHER_OBJECTS = 0.04
+
+
 def gen_pval(rng, odd=0.12):
+    if OTHER_OBJECTS and rng.random() < OTHER_OBJECTS:
+        return gen_xval(rng)
+    return gen_pval_plain(rng, odd)
+
+
+def gen_pval_plain(rng, odd=0.12):
     r = rng.random()
     if r < odd / 4:
         return ['b', list(rng.choice([b'\xff', b'\xc3', b'a\x80b', b'\xe2\x82', b'\xed\xa0\x80', b'\xc0\xaf']))]
@@ -227,7 +306,7 @@ SCRIPTS = ['', '', '', '/app', '/app', '/a/b', '/my app', '/caf\xe9', '/a%b', '/
            '/a\tb', '/a"b', '/[x]', '/a+b&c', "/it's", '/a\nb']
 HOSTS = [None, None, 'localhost', 'localhost:80', 'localhost:8080', 'example.com:443', 'example.com:5432', 'example.com']
 OV_SCHEMES = ['http', 'https', 'https', 'ftp', 'HTTP', 'ws', '']
-OV_HOSTS = ['example.com', 'example.com:8080', 'example.com:80', 'example.com:443', 'h', 'a.b:1:2', 'other.org:8443']
+OV_HOSTS = ['example.com', 'example.com:8080', 'example.com:80', 'example.com:443', 'h', 'a.b:1:2', 'other.org:8443', '']
 OV_PORTS = [['i', 80], ['i', 443], ['i', 8080], ['s', '80'], ['s', '443'], ['s', '8443'], ['s', ''], ['i', 0], ['i', 65535]]
 APP_URLS = ['http://x.example/pre', '', 'https://cdn.example:8443', '/mounted', 'http://example.com/a b', '//cdn/x']
 
@@ -247,8 +326,9 @@ def gen_qval(rng):
     if r < 0.12:
         return ['n']
     if r < 0.3:
-        return ['q', [gen_pval(rng) for _ in range(rng.choice([0, 1, 2, 3]))], rng.choice(['list', 'tuple'])]
-    return ['v', gen_pval(rng)]
+        return ['q', [gen_pval(rng) for _ in range(rng.choice([0, 1, 2, 3]))], rng.choice(['list', 'tuple', 'iter', 'gen'])]
+    v = gen_pval(rng)
+    return ['v', v if v[:2] != ['x', 'none'] else gen_xval(rng, False)]      # a None value is ['n']
 
 
 def gen_num(rng, k=None):
@@ -284,7 +364,11 @@ def gen_query(rng):
     pairs = []
     for _ in range(n):
         k = gen_pval(rng, 0.06) if rng.random() < 0.5 else ['s', rng.choice(['a', 'b', 'a', 'k y', 'q&'])]
+        if k[0] == 'x' and r < 0.6:
+            k = gen_pval_plain(rng, 0.06)        # a str-subclass key equals the plain str as a mapping key
         pairs.append([k, gen_qval(rng)])
+    if 0.6 <= r < 0.7 and pairs:
+        return ['li', pairs]                      # a one-shot iterator of pairs
     if r < 0.6:
         seen, uniq = set(), []
         for k, v in pairs:          # a mapping has unique, hashable keys
@@ -319,7 +403,7 @@ def gen_kwval(rng, star=False):
     if star:
         r = rng.random()
         if r < 0.6:
-            return ['q', [gen_pval(rng, 0.05) for _ in range(rng.choice([0, 1, 2, 3]))], rng.choice(['list', 'tuple'])]
+            return ['q', [gen_pval(rng, 0.05) for _ in range(rng.choice([0, 1, 2, 3]))], rng.choice(['list', 'tuple', 'iter', 'gen'])]
         return ['v', ['s', rng.choice(['a/b', '/a/b c', '', 'x%y/\xe9'])]] if r < 0.9 else ['v', gen_pval(rng)]
     if rng.random() < 0.04:
         return ['q', [gen_pval(rng, 0.0) for _ in range(rng.choice([0, 1, 2]))], rng.choice(['list', 'tuple'])]
@@ -389,7 +473,7 @@ def gen_vroot(rng, names):
 
 
 def gen_resource_case(rng):
-    names = [['s', gen_text(rng, 4, 0.35) if rng.random() < 0.6 else gen_word(rng)] if rng.random() < 0.9 else gen_pval(rng)
+    names = [['s', gen_text(rng, 4, 0.35) if rng.random() < 0.6 else gen_word(rng)] if rng.random() < 0.9 else gen_pval_plain(rng)
              for _ in range(rng.choice([0, 1, 1, 2, 3]))]
     c = {'kind': 'gen', 'helper': 'resource', 'env': gen_env(rng), 'names': names,
          'elements': gen_elements(rng), 'ov': gen_ov(rng), 'warm': [], 'vroot': None, 'rn': None, 'routes': []}
@@ -675,6 +759,18 @@ def _pval_ok(v, allow_o=False):
     if v[0] == 'n':     # bool / integral float / Decimal with two places: equal to the int v[1] as a dict key
         return len(v) == 3 and isinstance(v[1], int) and isinstance(v[2], str) and \
             v[2] in ('%d.0' % v[1], '%d.00' % v[1], {0: 'False', 1: 'True'}.get(v[1]))
+    if v[0] == 'x':     # None / float / str-subclass instance / object with __str__
+        if not (len(v) == 3 and isinstance(v[2], str) and _no_surrogate(v[2])):
+            return False
+        if v[1] == 'none':
+            return v[2] == ''
+        if v[1] == 'float':
+            try:
+                f = float(v[2])
+            except ValueError:
+                return False
+            return v[2] in X_FLOATS and str(f) == v[2]
+        return v[1] in ('ssub', 'obj')
     if v[0] == 'o':     # an unhashable value (list of ints); only inside query sequences
         return allow_o and len(v) == 2 and isinstance(v[1], list) and all(isinstance(x, int) and not isinstance(x, bool) for x in v[1])
     return False
@@ -682,11 +778,18 @@ def _pval_ok(v, allow_o=False):
 
 def _kwval_ok(v):
     return isinstance(v, list) and ((len(v) == 2 and v[0] == 'v' and _pval_ok(v[1])) or
-                                    (len(v) == 3 and v[0] == 'q' and v[2] in ('list', 'tuple') and isinstance(v[1], list)
+                                    (len(v) == 3 and v[0] == 'q' and v[2] in SEQ_KINDS and isinstance(v[1], list)
                                      and all(_pval_ok(x) for x in v[1])))
 
 
-def _kw_ok(kw):
+SEQ_KINDS = ('list', 'tuple', 'iter', 'gen')
+
+
+def _kw_ok(kw, star=None):
+    # a one-shot iterator has no stable str(): only where it is iterated (the star placeholder)
+    if isinstance(kw, list) and any(isinstance(e, list) and len(e) == 2 and isinstance(e[1], list) and len(e[1]) == 3
+                                    and e[1][2] in ('iter', 'gen') and e[0] != star for e in kw):
+        return False
     return isinstance(kw, list) and all(isinstance(e, list) and len(e) == 2 and isinstance(e[0], str) and e[0]
                                         and not e[0].startswith('_') and _kwval_ok(e[1]) for e in kw) \
         and len({e[0] for e in kw}) == len(kw)
@@ -699,15 +802,18 @@ def _query_ok(q):
         return False
     if q[0] == 's':
         return isinstance(q[1], str)
-    if q[0] not in ('l', 'd') or not isinstance(q[1], list):
+    if q[0] not in ('l', 'd', 'li') or not isinstance(q[1], list) or (q[0] == 'li' and not q[1]):
         return False
     for e in q[1]:
         if not (isinstance(e, list) and len(e) == 2 and _pval_ok(e[0])):
             return False
         v = e[1]
-        if not (isinstance(v, list) and v and ((v[0] == 'n' and len(v) == 1) or (v[0] == 'v' and len(v) == 2 and _pval_ok(v[1]))
+        if not (isinstance(v, list) and v and ((v[0] == 'n' and len(v) == 1)
+                                                or (v[0] == 'v' and len(v) == 2 and _pval_ok(v[1]) and v[1][:2] != ['x', 'none'])
                                                 or (v[0] == 'q' and len(v) == 3 and isinstance(v[1], list)
-                                                    and all(_pval_ok(x, True) for x in v[1]) and v[2] in ('list', 'tuple')))):
+                                                    and all(_pval_ok(x, True) for x in v[1]) and v[2] in SEQ_KINDS))):
+            return False
+        if q[0] == 'd' and e[0][0] == 'x':
             return False
     if q[0] == 'd' and len({json.dumps(e[0]) for e in q[1]}) != len(q[1]):
         return False
@@ -796,7 +902,10 @@ def valid(case):
             for n, p in case['routes']:
                 if not n or not isinstance(p, str) or not _no_surrogate(p) or not route_ok(p):
                     return False
-            if not _kw_ok(case['kw']):
+            tname = case['route_name'] if h == 'route' else (case.get('cur_route_name') or case.get('matched'))
+            tpat = dict((n, p) for n, p in case['routes']).get(tname)
+            star = parse_pattern(tpat)['star'] if tpat is not None else None
+            if not _kw_ok(case['kw'], star):
                 return False
         if h in ('route', 'resource', 'current'):
             if not all(_pval_ok(x) for x in case['elements']):
@@ -918,10 +1027,31 @@ def _w_pval(v):
         return [2, v[1]]
     if v[0] == 'o':
         return [3, 0, str(list(v[1]))]
+    if v[0] == 'x':
+        import zlib
+        py = _py_pval(v)
+        shown = str(py)
+        return [3, (10 ** 15 + zlib.crc32(shown.encode('utf-8', 'surrogatepass'))) if py else 0, shown]
     return [3, v[1], v[2]]
 
 
+class _S(str):
+    pass
+
+
+class _Obj:
+    def __init__(self, shown):
+        self.shown = shown
+
+    def __str__(self):
+        return self.shown
+
+    __repr__ = __str__
+
+
 def _py_pval(v):
+    if v[0] == 'x':
+        return {'none': lambda t: None, 'float': float, 'ssub': _S, 'obj': _Obj}[v[1]](v[2])
     if v[0] == 's':
         return v[1]
     if v[0] == 'b':
@@ -957,13 +1087,18 @@ def _w_query(q):
 
 
 def _py_seq(kind, items):
+    if kind == 'iter':
+        return iter(list(items))
+    if kind == 'gen':
+        return (x for x in list(items))
     return tuple(items) if kind == 'tuple' else list(items)
 
 
 def _w_kwval(v):
     if v[0] == 'v':
         return [0, _w_pval(v[1])]
-    return [1, [_w_pval(x) for x in v[1]], str(_py_seq(v[2], [_py_pval(x) for x in v[1]]))]
+    return [1, [_w_pval(x) for x in v[1]],
+            '' if v[2] in ('iter', 'gen') else str(_py_seq(v[2], [_py_pval(x) for x in v[1]]))]
 
 
 def _w_kw(kw):
@@ -1044,7 +1179,8 @@ def from_wire(case, raw):
         return {'model': raw, 'spec': None}
     if len(raw) != 4 or len(raw[3]) != 8:
         return {'model': ['MODEL-BAD', raw], 'spec': None}
-    return {'model': raw[:3] + [[]], 'spec': raw[3]}      # [] : the model mutates none of its inputs
+    # [] : the model mutates none of its inputs ; [] : current_route_url IS route_url on the merged keywords
+    return {'model': raw[:3] + [[], []], 'spec': raw[3]}
 
 
 # ------------------------------------------------------------ implementation
@@ -1138,6 +1274,8 @@ def _py_query(q):
     if q[0] == 's':
         return q[1]
     pairs = [(_py_pval(k), _py_qval(v)) for k, v in q[1]]
+    if q[0] == 'li':
+        return iter(pairs)
     return dict(pairs) if q[0] == 'd' else pairs
 
 
@@ -1282,7 +1420,23 @@ def run_impl(case):
         u, p = _observe(case, req, cfg, h, ov, els)
         after = snapshot()
         changed += [k for k in before if before[k] != after[k] and k not in changed]
-    return [u, p, py_decode(u[1]) if u[0] == 0 else [], sorted(changed)]
+    rel = []
+    if h == 'current':
+        # documented relation (Coq: C17_current_route_url_is_route_url): the URL of the current route is route_url of
+        # that route on the matchdict overridden by the caller's keywords, with request.GET as the default query
+        name = case['cur_route_name'] or case['matched']
+        if name is not None:
+            def merged():
+                kw = {k: _py_kwval(v) for k, v in case['matchdict']}
+                kw.update({k: _py_kwval(v) for k, v in case['kw']})
+                kw.update(_ov_kwargs(ov, '_'))
+                if '_query' not in kw:
+                    kw['_query'] = req.GET
+                return kw
+            ref = _call(lambda: req.route_url(name, *els, **merged()))
+            if ref != u:
+                rel = [ref]
+    return [u, p, py_decode(u[1]) if u[0] == 0 else [], sorted(changed), rel]
 
 
 def _observe(case, req, cfg, h, ov, els):
@@ -1424,7 +1578,9 @@ def judge_gen(case, obs, spec):
         return None, 'no spec', None
     auth, els, query, anchor, script, ext, must, xauth = spec
     if len(obs) > 3 and obs[3]:
-        return False, 'the call changed its inputs: %s' % obs[3], 'url' 
+        return False, 'the call changed its inputs: %s' % obs[3], 'url'
+    if len(obs) > 4 and obs[4]:
+        return False, 'current_route_url differs from route_url(<current route>, **{**matchdict, **keywords}): %s' % (obs[4],), 'url'
     if u[0] != 0:
         if must == 1:
             return False, 'no URL produced (%s) although the route exists, every placeholder has a value and every ' \
@@ -1619,6 +1775,11 @@ def kinds(case, obs):
         out.append('via-module-functions')
     if case.get('pre_calls'):
         out.append('call-history')
+    blob = json.dumps([case.get('elements'), case.get('kw'), ov['query'], ov['anchor']])
+    if '["x", ' in blob:
+        out.append('value-other-object')
+    if '"iter"]' in blob or '"gen"]' in blob or (ov['query'] is not None and ov['query'][0] == 'li'):
+        out.append('one-shot-iterator')
     if any(ext_parts(pp) is not None for _n, pp in case.get('routes') or []):
         out.append('has-external-route')
     if ov['query'] is not None and ov['query'][0] != 's' and any(
